@@ -211,3 +211,85 @@ func MapMutate() string {
 	}
 	return out
 }
+
+type counter struct {
+	mu   sync.Mutex
+	n    int
+	list []int
+	s    string
+	bits uint32
+}
+
+// LostUpdate: n goroutines update shared fields without synchronisation. A
+// schedule that runs another goroutine between the read and the write of one
+// of these statements loses an update (the result then is below n).
+func LostUpdate(n int) (int, int) {
+	c := &counter{}
+	var wg sync.WaitGroup
+	for i := 0; i < n; i++ {
+		i := i
+		wg.Add(1)
+		go func() {
+			defer wg.Done()
+			c.n++
+			c.list = append(c.list, i)
+		}()
+	}
+	wg.Wait()
+	return c.n, len(c.list)
+}
+
+// LockedUpdate is the same under a mutex: never loses anything.
+func LockedUpdate(n int) (int, int) {
+	c := &counter{}
+	total := 0
+	var wg sync.WaitGroup
+	for i := 0; i < n; i++ {
+		i := i
+		wg.Add(1)
+		go func() {
+			defer wg.Done()
+			c.mu.Lock()
+			c.n += 1
+			c.list = append(c.list, i, i)
+			total++
+			c.mu.Unlock()
+		}()
+	}
+	wg.Wait()
+	return c.n + total, len(c.list)
+}
+
+var pkgCount int
+
+// RMWForms: every form of statement the instrumenter splits, sequentially; the
+// result must be what Go computes.
+func RMWForms() string {
+	c := &counter{n: 5, bits: 0xff, s: "a"}
+	p := &c.n
+	c.n++
+	c.n--
+	c.n += 3
+	c.n -= 1
+	c.n *= 4
+	c.n /= 2
+	c.n %= 9
+	*p += 10
+	(*p)++
+	c.bits &= 0xf0
+	c.bits |= 1
+	c.bits ^= 3
+	c.bits <<= 2
+	c.bits >>= 1
+	c.bits &^= 0x40
+	c.s += "b" + "c"
+	c.list = append(c.list, 1, 2)
+	c.list = append(c.list, []int{3, 4}...)
+	c.list = append(c.list)
+	pkgCount = 0
+	pkgCount += int(int8(len(c.list)))
+	captured := 1
+	func() { captured += 2; captured++ }()
+	captured *= 5
+	return fmt.Sprint(c.n, c.bits, c.s, c.list, pkgCount, captured)
+}
